@@ -335,4 +335,360 @@ def Stmt.wt : Stmt → Bool
   | .cmp _ a b => a.wt && b.wt && (match a, b with | .bi _, .bi _ => false | _, _ => true)
   | .sgn a => a.wt
 
+
+/-! ## Part 2: what mpirxx.h does
+
+  ### heap of mpz_t objects -/
+
+/-- an `mpz_t` object: a variable or temporary `mpz_class` (`v i`), or the numerator / denominator
+    field of the `mpq_t` inside `mpq_class` object `i` -/
+inductive ZLoc where
+  | v (i : Nat)
+  | num (i : Nat)
+  | den (i : Nat)
+  deriving DecidableEq, Repr
+
+abbrev Heap := ZLoc → Int
+
+def Heap.set (h : Heap) (p : ZLoc) (x : Int) : Heap := fun l => if l = p then x else h l
+
+/-- value of mpq object `i` -/
+def qval (h : Heap) (i : Nat) : Rat := Rat.divInt (h (.num i)) (h (.den i))
+
+/-- the abstraction: what the class objects denote -/
+def Heap.abs (h : Heap) : Env := { z := fun i => h (.v i), q := fun i => qval h i }
+
+/-- store a (canonical) rational into mpq object `p` -/
+def Heap.setQ (h : Heap) (p : Nat) (r : Rat) : Heap := (h.set (.num p) r.num).set (.den p) (Int.ofNat r.den)
+
+/-! ### C integer conversions used by mpirxx.h -/
+
+/-- `static_cast<mpir_ui>(l)` -/
+def toUi (l : Int) : Nat := (l % (2 ^ 64 : Int)).toNat
+/-- signed overflow wraps (what g++ on x86-64 does for `-l` when `l == LONG_MIN`) -/
+def wrapSi (x : Int) : Int := (x + 2 ^ 63) % (2 ^ 64 : Int) - 2 ^ 63
+/-- `static_cast<mpir_ui>(-l)` -/
+def negUi (l : Int) : Nat := toUi (wrapSi (-l))
+/-- `(l >= 0 ? l : -l)` converted to `mpir_ui` -/
+def absUi (l : Int) : Nat := if l ≥ 0 then toUi l else negUi l
+/-- `__builtin_ctzl` (undefined for 0; mpirxx.h never calls it with 0) -/
+def ctz : Nat → Nat
+  | 0 => 64
+  | n + 1 => if (n + 1) % 2 = 1 then 0 else 1 + ctz ((n + 1) / 2)
+termination_by n => n
+decreasing_by omega
+/-- `(l & (l-1)) == 0` in unsigned 64-bit arithmetic -/
+def pow2Test (l : Nat) : Bool := (l &&& ((l + (two64 - 1)) % two64)) == 0
+
+/-- `__GMPXX_TMPZ_D; … temp`: `mpz_set_d` into a stack temporary (raises on Inf/NaN) -/
+def tmpzD (bits : Nat) : Option Int := (dval bits).map qtrunc
+/-- `__GMPXX_TMPZ_SI`: `__mpz_set_si_safe` (mpirxx.h:117) -/
+def tmpzSi (l : Int) : Int := if l < 0 then -(Int.ofNat (negUi l)) else Int.ofNat (toUi l)
+
+def fitsSi (x : Int) : Bool := decide (LONG_MIN ≤ x ∧ x ≤ LONG_MAX)
+def fitsUi (x : Int) : Bool := decide (0 ≤ x ∧ x < (two64 : Int))
+
+/-! ### the C functions called by mpirxx.h, as heap transformers
+
+  Each reads its operands, then writes its destination (they are alias-safe: property C05); what they
+  compute is the subject of C01–C12 and is taken as their meaning here. -/
+
+def mpz_set (p w : ZLoc) (h : Heap) : Heap := h.set p (h w)
+def mpz_neg (p w : ZLoc) (h : Heap) : Heap := h.set p (-(h w))
+def mpz_abs (p w : ZLoc) (h : Heap) : Heap := h.set p (zabs (h w))
+def mpz_com (p w : ZLoc) (h : Heap) : Heap := h.set p (zcom (h w))
+def mpz_sqrt (p w : ZLoc) (h : Heap) : Option Heap := if h w < 0 then none else some (h.set p (Int.ofNat (Nat.sqrt (h w).toNat)))
+def mpz_add (p a b : ZLoc) (h : Heap) : Heap := h.set p (h a + h b)
+def mpz_sub (p a b : ZLoc) (h : Heap) : Heap := h.set p (h a - h b)
+def mpz_mul (p a b : ZLoc) (h : Heap) : Heap := h.set p (h a * h b)
+def mpz_tdiv_q (p a b : ZLoc) (h : Heap) : Option Heap := if h b = 0 then none else some (h.set p (Int.tdiv (h a) (h b)))
+def mpz_tdiv_r (p a b : ZLoc) (h : Heap) : Option Heap := if h b = 0 then none else some (h.set p (Int.tmod (h a) (h b)))
+def mpz_and (p a b : ZLoc) (h : Heap) : Heap := h.set p (zand (h a) (h b))
+def mpz_ior (p a b : ZLoc) (h : Heap) : Heap := h.set p (zior (h a) (h b))
+def mpz_xor (p a b : ZLoc) (h : Heap) : Heap := h.set p (zxor (h a) (h b))
+def mpz_gcd (p a b : ZLoc) (h : Heap) : Heap := h.set p (zgcd (h a) (h b))
+def mpz_lcm (p a b : ZLoc) (h : Heap) : Heap := h.set p (zlcm (h a) (h b))
+def mpz_add_ui (p w : ZLoc) (l : Nat) (h : Heap) : Heap := h.set p (h w + Int.ofNat l)
+def mpz_sub_ui (p w : ZLoc) (l : Nat) (h : Heap) : Heap := h.set p (h w - Int.ofNat l)
+def mpz_ui_sub (p : ZLoc) (l : Nat) (w : ZLoc) (h : Heap) : Heap := h.set p (Int.ofNat l - h w)
+def mpz_mul_ui (p w : ZLoc) (l : Nat) (h : Heap) : Heap := h.set p (h w * Int.ofNat l)
+def mpz_mul_si (p w : ZLoc) (l : Int) (h : Heap) : Heap := h.set p (h w * l)
+def mpz_mul_2exp (p w : ZLoc) (n : Nat) (h : Heap) : Heap := h.set p (zshl (h w) n)
+def mpz_fdiv_q_2exp (p w : ZLoc) (n : Nat) (h : Heap) : Heap := h.set p (zshr (h w) n)
+def mpz_tdiv_q_2exp (p w : ZLoc) (n : Nat) (h : Heap) : Heap := h.set p (Int.tdiv (h w) ((2 : Int) ^ n))
+def mpz_tdiv_q_ui (p w : ZLoc) (l : Nat) (h : Heap) : Option Heap := if l = 0 then none else some (h.set p (Int.tdiv (h w) (Int.ofNat l)))
+def mpz_tdiv_r_ui (p w : ZLoc) (l : Nat) (h : Heap) : Option Heap := if l = 0 then none else some (h.set p (Int.tmod (h w) (Int.ofNat l)))
+def mpz_gcd_ui (p w : ZLoc) (l : Nat) (h : Heap) : Heap := h.set p (zgcd (h w) (Int.ofNat l))
+def mpz_lcm_ui (p w : ZLoc) (l : Nat) (h : Heap) : Heap := h.set p (zlcm (h w) (Int.ofNat l))
+def mpz_set_ui (p : ZLoc) (l : Nat) (h : Heap) : Heap := h.set p (Int.ofNat l)
+def mpz_set_si (p : ZLoc) (l : Int) (h : Heap) : Heap := h.set p l
+/-- the same functions with a stack temporary (`__GMPXX_TMPZ_*`) of value `t` as an operand -/
+def mpz_opT (f : Int → Int → Int) (p w : ZLoc) (t : Int) (h : Heap) : Heap := h.set p (f (h w) t)
+
+/-! ### function objects on mpz (`__gmp_unary_*`, `__gmp_binary_*`, mpirxx.h:176–917, 1122–1273)
+
+  `cst` is the value of `__GMPXX_CONSTANT(l)` = `__builtin_constant_p(l)`: the compiler may answer
+  either way, so every statement below is for both. -/
+
+abbrev M := Heap → Option Heap
+
+/-- `if (z != w) mpz_set(z, w)` -/
+def copyZ (p w : ZLoc) : M := fun h => if p ≠ w then some (mpz_set p w h) else some h
+
+namespace Lshift   -- __gmp_binary_lshift, mpirxx.h:465
+def z (cst : Bool) (p w : ZLoc) (l : Nat) : M := fun h =>
+  if cst && l == 0 then copyZ p w h else some (mpz_mul_2exp p w l h)
+end Lshift
+
+namespace Rshift   -- __gmp_binary_rshift, mpirxx.h:489
+def z (cst : Bool) (p w : ZLoc) (l : Nat) : M := fun h =>
+  if cst && l == 0 then copyZ p w h else some (mpz_fdiv_q_2exp p w l h)
+end Rshift
+
+namespace Plus   -- __gmp_binary_plus, mpirxx.h:195
+def zz (p w v : ZLoc) : M := fun h => some (mpz_add p w v h)
+def z_ui (cst : Bool) (p w : ZLoc) (l : Nat) : M := fun h =>
+  if cst && l == 0 then copyZ p w h else some (mpz_add_ui p w l h)
+def ui_z (cst : Bool) (p : ZLoc) (l : Nat) (w : ZLoc) : M := z_ui cst p w l
+def z_si (cst : Bool) (p w : ZLoc) (l : Int) : M := fun h =>
+  if l ≥ 0 then z_ui cst p w (toUi l) h else some (mpz_sub_ui p w (negUi l) h)
+def si_z (cst : Bool) (p : ZLoc) (l : Int) (w : ZLoc) : M := z_si cst p w l
+def z_d (p w : ZLoc) (d : Nat) : M := fun h => (tmpzD d).map fun t => mpz_opT (· + ·) p w t h
+def d_z (p : ZLoc) (d : Nat) (w : ZLoc) : M := z_d p w d
+end Plus
+
+namespace Minus   -- __gmp_binary_minus, mpirxx.h:307
+def zz (p w v : ZLoc) : M := fun h => some (mpz_sub p w v h)
+def z_ui (cst : Bool) (p w : ZLoc) (l : Nat) : M := fun h =>
+  if cst && l == 0 then copyZ p w h else some (mpz_sub_ui p w l h)
+def ui_z (cst : Bool) (p : ZLoc) (l : Nat) (w : ZLoc) : M := fun h =>
+  if cst && l == 0 then some (mpz_neg p w h) else some (mpz_ui_sub p l w h)
+def z_si (cst : Bool) (p w : ZLoc) (l : Int) : M := fun h =>
+  if l ≥ 0 then z_ui cst p w (toUi l) h else some (mpz_add_ui p w (negUi l) h)
+def si_z (cst : Bool) (p : ZLoc) (l : Int) (w : ZLoc) : M := fun h =>
+  if l ≥ 0 then ui_z cst p (toUi l) w h
+  else some (mpz_neg p p (mpz_add_ui p w (negUi l) h))
+def z_d (p w : ZLoc) (d : Nat) : M := fun h => (tmpzD d).map fun t => mpz_opT (· - ·) p w t h
+def d_z (p : ZLoc) (d : Nat) (w : ZLoc) : M := fun h => (tmpzD d).map fun t => mpz_opT (fun x y => y - x) p w t h
+end Minus
+
+namespace Multiplies   -- __gmp_binary_multiplies, mpirxx.h:513
+def zz (p w v : ZLoc) : M := fun h => some (mpz_mul p w v h)
+def z_ui (cst : Bool) (p w : ZLoc) (l : Nat) : M := fun h =>
+  if cst && pow2Test l then
+    if l = 0 then some (h.set p 0)              -- z->_mp_size = 0
+    else Lshift.z cst p w (ctz l) h
+  else some (mpz_mul_ui p w l h)
+def ui_z (cst : Bool) (p : ZLoc) (l : Nat) (w : ZLoc) : M := z_ui cst p w l
+def z_si (cst : Bool) (p w : ZLoc) (l : Int) : M := fun h =>
+  if cst then
+    if l ≥ 0 then z_ui cst p w (toUi l) h
+    else (z_ui cst p w (negUi l) h).map (mpz_neg p p)
+  else some (mpz_mul_si p w l h)
+def si_z (cst : Bool) (p : ZLoc) (l : Int) (w : ZLoc) : M := z_si cst p w l
+def z_d (p w : ZLoc) (d : Nat) : M := fun h => (tmpzD d).map fun t => mpz_opT (· * ·) p w t h
+def d_z (p : ZLoc) (d : Nat) (w : ZLoc) : M := z_d p w d
+end Multiplies
+
+namespace Divides   -- __gmp_binary_divides, mpirxx.h:649 (with the repairs 6128301 and a12218d)
+def zz (p w v : ZLoc) : M := mpz_tdiv_q p w v
+def z_ui (cst : Bool) (p w : ZLoc) (l : Nat) : M := fun h =>
+  if cst && pow2Test l && l != 0 then
+    if l = 1 then copyZ p w h else some (mpz_tdiv_q_2exp p w (ctz l) h)
+  else mpz_tdiv_q_ui p w l h
+def ui_z (p : ZLoc) (l : Nat) (w : ZLoc) : M := fun h =>
+  if h w = 0 then mpz_tdiv_q p w w h
+  else if h w ≥ 0 then
+    if fitsUi (h w) then some (mpz_set_ui p (l / (h w).toNat) h)       -- l / mpz_get_ui(w), w ≠ 0
+    else some (mpz_set_ui p 0 h)
+  else
+    let h1 := mpz_neg p w h
+    if fitsUi (h1 p) then some (mpz_neg p p (mpz_set_ui p (l / (h1 p).toNat) h1))
+    else some (mpz_set_ui p 0 h1)
+def z_si (cst : Bool) (p w : ZLoc) (l : Int) : M := fun h =>
+  if l ≥ 0 then z_ui cst p w (toUi l) h
+  else (z_ui cst p w (negUi l) h).map (mpz_neg p p)
+def si_z (p : ZLoc) (l : Int) (w : ZLoc) : M := fun h =>
+  if fitsSi (h w) then
+    let d := h w                                   -- mpz_get_si(w)
+    if d = 0 then mpz_tdiv_q p w w h
+    else if d = -1 then some (mpz_neg p p (mpz_set_si p l h))
+    else some (mpz_set_si p (Int.tdiv l d) h)      -- C `l / d`, no overflow since d ∉ {0, -1}
+  else some (mpz_set_si p (if (h w).natAbs = absUi l then -1 else 0) h)   -- mpz_cmpabs_ui(w, |l|) == 0
+def z_d (p w : ZLoc) (d : Nat) : M := fun h =>
+  (tmpzD d).bind fun t => if t = 0 then none else some (mpz_opT Int.tdiv p w t h)
+def d_z (p : ZLoc) (d : Nat) (w : ZLoc) : M := fun h =>
+  (tmpzD d).bind fun t => if h w = 0 then none else some (mpz_opT (fun x y => Int.tdiv y x) p w t h)
+end Divides
+
+namespace Modulus   -- __gmp_binary_modulus, mpirxx.h:832
+def zz (p w v : ZLoc) : M := mpz_tdiv_r p w v
+def z_ui (p w : ZLoc) (l : Nat) : M := mpz_tdiv_r_ui p w l
+def ui_z (p : ZLoc) (l : Nat) (w : ZLoc) : M := fun h =>
+  if h w = 0 then mpz_tdiv_r p w w h
+  else if h w ≥ 0 then
+    if fitsUi (h w) then some (mpz_set_ui p (l % (h w).toNat) h)
+    else some (mpz_set_ui p l h)
+  else
+    let h1 := mpz_neg p w h
+    if fitsUi (h1 p) then some (mpz_set_ui p (l % (h1 p).toNat) h1)
+    else some (mpz_set_ui p l h1)
+def z_si (p w : ZLoc) (l : Int) : M := mpz_tdiv_r_ui p w (absUi l)
+def si_z (p : ZLoc) (l : Int) (w : ZLoc) : M := fun h =>
+  if fitsSi (h w) then
+    let d := h w
+    if d = 0 then mpz_tdiv_r p w w h
+    else some (mpz_set_si p (if d = -1 then 0 else Int.tmod l d) h)
+  else some (mpz_set_si p (if (h w).natAbs = absUi l then 0 else l) h)
+def z_d (p w : ZLoc) (d : Nat) : M := fun h =>
+  (tmpzD d).bind fun t => if t = 0 then none else some (mpz_opT Int.tmod p w t h)
+def d_z (p : ZLoc) (d : Nat) (w : ZLoc) : M := fun h =>
+  (tmpzD d).bind fun t => if h w = 0 then none else some (mpz_opT (fun x y => Int.tmod y x) p w t h)
+end Modulus
+
+/- `__gmp_binary_and/ior/xor` (mpirxx.h:878–931): built-ins go through `__GMPXX_TMPZ_UI/SI/D` -/
+namespace Bitop
+def zz (f : Int → Int → Int) (p w v : ZLoc) : M := fun h => some (h.set p (f (h w) (h v)))
+def z_ui (f : Int → Int → Int) (p w : ZLoc) (l : Nat) : M := fun h => some (mpz_opT f p w (Int.ofNat l) h)
+def z_si (f : Int → Int → Int) (p w : ZLoc) (l : Int) : M := fun h => some (mpz_opT f p w (tmpzSi l) h)
+def z_d (f : Int → Int → Int) (p w : ZLoc) (d : Nat) : M := fun h => (tmpzD d).map fun t => mpz_opT f p w t h
+end Bitop
+
+/- `__gmp_gcd_function` / `__gmp_lcm_function` (mpirxx.h:1225, 1257) -/
+namespace Gcd
+def zz (p w v : ZLoc) : M := fun h => some (mpz_gcd p w v h)
+def z_ui (p w : ZLoc) (l : Nat) : M := fun h => some (mpz_gcd_ui p w l h)
+def z_si (p w : ZLoc) (l : Int) : M := z_ui p w (absUi l)        -- __gmpxx_abs_ui
+def z_d (p w : ZLoc) (d : Nat) : M := fun h => (tmpzD d).map fun t => mpz_opT zgcd p w t h
+end Gcd
+namespace Lcm
+def zz (p w v : ZLoc) : M := fun h => some (mpz_lcm p w v h)
+def z_ui (p w : ZLoc) (l : Nat) : M := fun h => some (mpz_lcm_ui p w l h)
+def z_si (p w : ZLoc) (l : Int) : M := z_ui p w (absUi l)
+def z_d (p w : ZLoc) (d : Nat) : M := fun h => (tmpzD d).map fun t => mpz_opT zlcm p w t h
+end Lcm
+
+/-- an operand handed to a function object: an mpz_t object or a built-in value -/
+inductive ZArg where
+  | loc (l : ZLoc)
+  | bi (c : Bi)
+  deriving DecidableEq, Repr
+
+/-- overload resolution of `Op::eval(p, a, b)` for the mpz function objects -/
+def fnBinZ (cst : Bool) (o : Bin) (p : ZLoc) (a b : ZArg) : M :=
+  match o, a, b with
+  | .add, .loc w, .loc v => Plus.zz p w v
+  | .add, .loc w, .bi (.ui l) => Plus.z_ui cst p w l
+  | .add, .bi (.ui l), .loc w => Plus.ui_z cst p l w
+  | .add, .loc w, .bi (.si l) => Plus.z_si cst p w l
+  | .add, .bi (.si l), .loc w => Plus.si_z cst p l w
+  | .add, .loc w, .bi (.d d) => Plus.z_d p w d
+  | .add, .bi (.d d), .loc w => Plus.d_z p d w
+  | .sub, .loc w, .loc v => Minus.zz p w v
+  | .sub, .loc w, .bi (.ui l) => Minus.z_ui cst p w l
+  | .sub, .bi (.ui l), .loc w => Minus.ui_z cst p l w
+  | .sub, .loc w, .bi (.si l) => Minus.z_si cst p w l
+  | .sub, .bi (.si l), .loc w => Minus.si_z cst p l w
+  | .sub, .loc w, .bi (.d d) => Minus.z_d p w d
+  | .sub, .bi (.d d), .loc w => Minus.d_z p d w
+  | .mul, .loc w, .loc v => Multiplies.zz p w v
+  | .mul, .loc w, .bi (.ui l) => Multiplies.z_ui cst p w l
+  | .mul, .bi (.ui l), .loc w => Multiplies.ui_z cst p l w
+  | .mul, .loc w, .bi (.si l) => Multiplies.z_si cst p w l
+  | .mul, .bi (.si l), .loc w => Multiplies.si_z cst p l w
+  | .mul, .loc w, .bi (.d d) => Multiplies.z_d p w d
+  | .mul, .bi (.d d), .loc w => Multiplies.d_z p d w
+  | .div, .loc w, .loc v => Divides.zz p w v
+  | .div, .loc w, .bi (.ui l) => Divides.z_ui cst p w l
+  | .div, .bi (.ui l), .loc w => Divides.ui_z p l w
+  | .div, .loc w, .bi (.si l) => Divides.z_si cst p w l
+  | .div, .bi (.si l), .loc w => Divides.si_z p l w
+  | .div, .loc w, .bi (.d d) => Divides.z_d p w d
+  | .div, .bi (.d d), .loc w => Divides.d_z p d w
+  | .mod, .loc w, .loc v => Modulus.zz p w v
+  | .mod, .loc w, .bi (.ui l) => Modulus.z_ui p w l
+  | .mod, .bi (.ui l), .loc w => Modulus.ui_z p l w
+  | .mod, .loc w, .bi (.si l) => Modulus.z_si p w l
+  | .mod, .bi (.si l), .loc w => Modulus.si_z p l w
+  | .mod, .loc w, .bi (.d d) => Modulus.z_d p w d
+  | .mod, .bi (.d d), .loc w => Modulus.d_z p d w
+  | .and, .loc w, .loc v => Bitop.zz zand p w v
+  | .and, .loc w, .bi (.ui l) | .and, .bi (.ui l), .loc w => Bitop.z_ui zand p w l
+  | .and, .loc w, .bi (.si l) | .and, .bi (.si l), .loc w => Bitop.z_si zand p w l
+  | .and, .loc w, .bi (.d d) | .and, .bi (.d d), .loc w => Bitop.z_d zand p w d
+  | .ior, .loc w, .loc v => Bitop.zz zior p w v
+  | .ior, .loc w, .bi (.ui l) | .ior, .bi (.ui l), .loc w => Bitop.z_ui zior p w l
+  | .ior, .loc w, .bi (.si l) | .ior, .bi (.si l), .loc w => Bitop.z_si zior p w l
+  | .ior, .loc w, .bi (.d d) | .ior, .bi (.d d), .loc w => Bitop.z_d zior p w d
+  | .xor, .loc w, .loc v => Bitop.zz zxor p w v
+  | .xor, .loc w, .bi (.ui l) | .xor, .bi (.ui l), .loc w => Bitop.z_ui zxor p w l
+  | .xor, .loc w, .bi (.si l) | .xor, .bi (.si l), .loc w => Bitop.z_si zxor p w l
+  | .xor, .loc w, .bi (.d d) | .xor, .bi (.d d), .loc w => Bitop.z_d zxor p w d
+  | .gcd, .loc w, .loc v => Gcd.zz p w v
+  | .gcd, .loc w, .bi (.ui l) | .gcd, .bi (.ui l), .loc w => Gcd.z_ui p w l
+  | .gcd, .loc w, .bi (.si l) | .gcd, .bi (.si l), .loc w => Gcd.z_si p w l
+  | .gcd, .loc w, .bi (.d d) | .gcd, .bi (.d d), .loc w => Gcd.z_d p w d
+  | .lcm, .loc w, .loc v => Lcm.zz p w v
+  | .lcm, .loc w, .bi (.ui l) | .lcm, .bi (.ui l), .loc w => Lcm.z_ui p w l
+  | .lcm, .loc w, .bi (.si l) | .lcm, .bi (.si l), .loc w => Lcm.z_si p w l
+  | .lcm, .loc w, .bi (.d d) | .lcm, .bi (.d d), .loc w => Lcm.z_d p w d
+  | _, .bi _, .bi _ => fun _ => none        -- no such overload: does not compile
+
+/-- `Op::eval(p, w)` for the unary mpz function objects (mpirxx.h:176–193, 1122–1148) -/
+def fnUnZ (o : Un) (p w : ZLoc) : M := fun h =>
+  match o with
+  | .pos => some (mpz_set p w h)
+  | .neg => some (mpz_neg p w h)
+  | .com => some (mpz_com p w h)
+  | .abs => some (mpz_abs p w h)
+  | .sqrt => mpz_sqrt p w h
+
+def fnShZ (cst : Bool) (o : Sh) (p w : ZLoc) (n : Nat) : M :=
+  match o with
+  | .shl => Lshift.z cst p w n
+  | .shr => Rshift.z cst p w n
+
+/-! ### the expression-template strategy for mpz-typed trees (mpirxx.h:2382–2772)
+
+  `evalZ cst k p e` is `__gmp_set_expr(p, e)` for an mpz-typed tree: `mpz_set` for an `mpz_class`
+  leaf (mpirxx.h:2267), else `e.eval(p)` with the specialisation selected by the shapes of the
+  operands.  `k` is the index of the next unused `mpz_class` temporary object. -/
+
+def E.zleaf? : E → Option Nat
+  | .zv i => some i
+  | _ => none
+
+def evalZ (cst : Bool) : (k : Nat) → (p : ZLoc) → E → M
+  | _, p, .zv i => fun h => some (mpz_set p (.v i) h)
+  | _, _, .qv _ => fun _ => none
+  | k, p, .un o a =>
+    match a.zleaf? with
+    | some i => fnUnZ o p (.v i)                                        -- mpirxx.h:2391
+    | none => fun h => (evalZ cst k p a h).bind (fnUnZ o p p)           -- mpirxx.h:2409: expr.val.eval(p); Op::eval(p, p)
+  | k, p, .bin o a b =>
+    match a.zleaf?, b.zleaf? with
+    | some i, some j => fnBinZ cst o p (.loc (.v i)) (.loc (.v j))      -- mpirxx.h:2437
+    | some i, none => fun h =>                                          -- mpirxx.h:2573
+        if p ≠ .v i then (evalZ cst k p b h).bind (fnBinZ cst o p (.loc (.v i)) (.loc p))
+        else (evalZ cst (k + 1) (.v k) b h).bind (fnBinZ cst o p (.loc (.v i)) (.loc (.v k)))
+    | none, some j => fun h =>                                          -- mpirxx.h:2608
+        if p ≠ .v j then (evalZ cst k p a h).bind (fnBinZ cst o p (.loc p) (.loc (.v j)))
+        else (evalZ cst (k + 1) (.v k) a h).bind (fnBinZ cst o p (.loc (.v k)) (.loc (.v j)))
+    | none, none => fun h =>                                            -- mpirxx.h:2747
+        (evalZ cst (k + 1) (.v k) b h).bind fun h1 =>                   --   __gmp_temp<T> temp2(expr.val2, p);
+        (evalZ cst (k + 1) p a h1).bind                                  --   expr.val1.eval(p);
+          (fnBinZ cst o p (.loc p) (.loc (.v k)))                        --   Op::eval(p, p, temp2)
+  | k, p, .binL o c b =>
+    match b.zleaf? with
+    | some j => fnBinZ cst o p (.bi c) (.loc (.v j))                    -- mpirxx.h:2482
+    | none => fun h => (evalZ cst k p b h).bind (fnBinZ cst o p (.bi c) (.loc p))   -- mpirxx.h:2667
+  | k, p, .binR o a c =>
+    match a.zleaf? with
+    | some i => fnBinZ cst o p (.loc (.v i)) (.bi c)                    -- mpirxx.h:2464
+    | none => fun h => (evalZ cst k p a h).bind (fnBinZ cst o p (.loc p) (.bi c))   -- mpirxx.h:2646
+  | k, p, .sh o a n =>
+    match a.zleaf? with
+    | some i => fnShZ cst o p (.v i) n
+    | none => fun h => (evalZ cst k p a h).bind (fnShZ cst o p p n)
+
 end Mpir.Cxx
